@@ -185,10 +185,17 @@ class Hist(Scenario):
                 segp.append(p)
             else:
                 raise ValueError(op)
-        compare_result(ctx, sim, started, rows, segp, names, ss_seen)
+        compare_result(ctx, sim, started, rows, segp, names, ss_seen, kind=self.kind)
 
 
-def compare_result(ctx, sim, started, rows, segp, names, ss_seen=False):
+FLUXES = {
+    "decay": lambda p, y: {"v": p["k"] * y[0]},
+    "ia_decay": lambda p, y: {"v": p["kia"] * y[0]},
+    "chain": lambda p, y: {"v1": p["k1"] * y[0], "v2": p["k2"] * y[1]},
+}
+
+
+def compare_result(ctx, sim, started, rows, segp, names, ss_seen=False, kind=None):
     if True:
         # ---- final comparison of the accumulated result
         frames = sim.variables
@@ -223,6 +230,17 @@ def compare_result(ctx, sim, started, rows, segp, names, ss_seen=False):
         with ctx.impl("get_result"):
             res = sim.get_result().unwrap_or_err()
         ctx.true("get_result carries the same frames", len(res.raw_variables) == len(frames))
+        # the fluxes reported for a row are those of its own segment's parameter values (whatever the model holds now)
+        if kind in FLUXES and not ss_seen and len(segp) == len(frames):
+            with ctx.impl("fluxes of the result"):
+                fl = res.fluxes
+            if len(fl) == len(rows):
+                j = 0
+                for k, f in enumerate(frames):
+                    for _ in range(len(f)):
+                        for fn_, val in FLUXES[kind](segp[k], rows[j][1]).items():
+                            ctx.eq(f"flux[{j},{fn_}] under the parameter values of segment {k}", fl[fn_].iloc[j], val)
+                        j += 1
 
 
 SIM_OPS = ["S1", "S2", "TC2"]
@@ -272,6 +290,9 @@ def scenarios(tier, seed):
     # the result is read between an edit and the next run
     for h in (("S1", "UP", "RD", "S1"), ("TC2", "UP", "RD", "TC2"), ("S1", "RD", "UP", "S1"), ("S1", "UV", "RD", "S1"), ("S1", "UP", "S1", "UP", "RD", "S1")):
         scs.append(Hist("decay", h))
+    # a parameter defined by an initial assignment is given a plain value between two runs: the first segment keeps its own
+    for h in (("S1", "UP", "S1"), ("TC2", "UP", "TC2"), ("S1", "UP", "RD", "S1")):
+        scs.append(Hist("ia_decay", h))
     # minimal histories for constructs with open findings (kept out of the composites above)
     for h in (("SS",), ("S1", "SS"), ("SS", "S1"), ("UV", "SS"), ("S1", "SS", "S1"), ("S1", "UV", "SS"), ("SS", "TC2")):
         scs.append(Hist("decay", h))
